@@ -56,7 +56,8 @@ theorem multi_queues_args_unchanged (mode : Mode) (c : Nat) (name : Bytes) (args
     (hsig : lookupSig name = some sig)
     (htx : txOf s c = some (some q))
     (har : sig.checkArity args.length = true)
-    (hnq : SigTable.notQueued.contains sig.name = false) :
+    (hnq : SigTable.notQueued.contains sig.name = false)
+    (hnm : SigTable.notInMulti.contains sig.name = false) :
     txOf ((processCommand mode c (name :: args)).run s).2 c = some (some (q ++ [(sig.name, args)])) := by
   rw [processCommand_cons]
   simp only [StateT.run_bind, getConn_run_p, hsig]
@@ -69,8 +70,31 @@ theorem multi_queues_args_unchanged (mode : Mode) (c : Nat) (name : Bytes) (args
       simp only [Option.map_some, Option.some.injEq] at htx
       simp [htx]
   show txOf ((dispatch mode c ((findConn s c).getD { id := c }) sig args).run s).2 c = _
-  rw [txOf_queued mode c _ sig args s hconn har hnq, htx]
+  rw [txOf_queued mode c _ sig args s hconn har hnq hnm, htx]
   rfl
+
+/-- MULTI branch, the refused commands ((P)SUBSCRIBE / (P)UNSUBSCRIBE, any case of the name): the queue is
+left exactly as it was - nothing is stored. -/
+theorem multi_refused_queue_unchanged (mode : Mode) (c : Nat) (name : Bytes) (args : List Bytes) (s : Sys)
+    (sig : Sig) (q : List (String × List Bytes))
+    (hsig : lookupSig name = some sig)
+    (htx : txOf s c = some (some q))
+    (har : sig.checkArity args.length = true)
+    (hnq : SigTable.notQueued.contains sig.name = false)
+    (hnm : SigTable.notInMulti.contains sig.name = true) :
+    txOf ((processCommand mode c (name :: args)).run s).2 c = some (some q) := by
+  rw [processCommand_cons]
+  simp only [StateT.run_bind, getConn_run_p, hsig]
+  have hconn : ((findConn s c).getD { id := c }).tx.isSome = true := by
+    unfold txOf at htx
+    cases hf : findConn s c with
+    | none => rw [hf] at htx; simp at htx
+    | some x =>
+      rw [hf] at htx
+      simp only [Option.map_some, Option.some.injEq] at htx
+      simp [htx]
+  show txOf ((dispatch mode c ((findConn s c).getD { id := c }) sig args).run s).2 c = _
+  rw [txOf_refused mode c _ sig args s hconn har hnq hnm, htx]
 
 /-! ## non-vacuity -/
 
@@ -96,6 +120,13 @@ example :
     simp [SigTable.find, SigTable.sigs]
     rfl
   exact multi_queues_args_unchanged {} 0 _ _ _ _ [] hsig rfl rfl (by simp [SigTable.notQueued])
+    (by simp [SigTable.notInMulti])
+
+/-- `SubScribe Ch` inside MULTI: looked up as `subscribe`, refused, the queue stays empty -/
+example :
+    txOf ((processCommand {} 0 [[83, 117, 98, 83, 99, 114, 105, 98, 101], [67, 104]]).run
+      { srv := { conns := [{ id := 0, tx := some [] }] } }).2 0 = some (some []) := by
+  decide +kernel
 
 end C17
 end FR
